@@ -385,6 +385,7 @@ func processBatch(d *lib.Driver, batch []*Case) error {
 		case "pretty":
 			it.runs = runPrettyCase(c)
 			planRequests(it, add)
+			it.norm = add("normp\t" + c.PR.String() + "\t" + c.T.text(nil))
 		}
 		items = append(items, it)
 	}
@@ -537,9 +538,16 @@ func judge(d *lib.Driver, it *item, ans []string) {
 			"impl": fmt.Sprintf("%q", string(trunc(it.runs[0].out))), "spec": string(trunc([]byte(ansOr(ans, it.runs[0].spec))))})
 	}
 	// the Lean `norm` against the harness's expected tree (ties the statement of C04_oj to the oracle)
+	// (for pretty: the Lean `normP`, the statement of C04_pretty_partial, against the harness's prettyNorm,
+	// the predicate of the known finding C04-pretty-omit)
 	if it.norm >= 0 {
 		var sb strings.Builder
-		exp.expectCanon(&sb)
+		if c.Fam == "pretty" {
+			pexp, _ := c.T.prettyNorm(omitNil, omitEmpty)
+			pexp.expectCanon(&sb)
+		} else {
+			exp.expectCanon(&sb)
+		}
 		if ans[it.norm] != sb.String() {
 			finding("disagreement", "norm", "Lean norm and the harness's expected tree differ", c, nil,
 				map[string]any{"lean_norm": ans[it.norm], "harness_expected": sb.String()})
